@@ -41,8 +41,8 @@ CONSTANTS
     Alpha,      \* the directive alphabet: a sequence of abstract directives
     MaxLen,     \* ledgers of 0..MaxLen directives
     Keys,       \* sequence of metadata keys looked up by meta() & co
-    Mech,       \* "ok" = the iteration as shipped;  "skipfirst" / "rowidperentry" / "updateinplace" = deliberately
-                \* broken (non-vacuity)
+    Mech,       \* "ok" = the iteration as shipped;  "skipfirst" / "rowidperentry" / "updateinplace" / "foldcase" =
+                \* deliberately broken (non-vacuity)
     MaxStmts,   \* statements executed one after the other on the one connection
     QualOpts    \* the FROM qualifiers a statement on the default table may carry: a set of Qual records
 
@@ -96,6 +96,19 @@ OptMetaCell(ometa) == IF IsNull(ometa) THEN NULL ELSE MetaCell(ometa[1])
 StrOf(omv) == IF IsNull(omv) THEN NULL ELSE Some(omv[1].s)
 IntOf(omv) == IF IsNull(omv) THEN NULL ELSE Some(omv[1].n[1])
 SetCell(o) == IF IsNull(o) THEN NULL ELSE Some(Range(o[1]))   \* tags / links: optional sorted list -> optional set
+
+(* Metadata keys are OPAQUE strings compared character by character (HasKey: meta[n][1] = k).  The Beancount syntax
+   of a key is [a-z][a-zA-Z0-9\-_]+ : only the FIRST character is lower case, so "isinCode", "isincode" and "tax-Id_2"
+   are three different keys, may sit side by side in one dictionary with different values, and a lookup with a key
+   that differs from a present one in the case of a letter only is a lookup of a MISSING key (NULL).  Lower is used
+   by the deliberately broken lookup mechanism only (Mech = "foldcase", part 2). *)
+UpperChars == <<"A", "B", "C", "D", "E", "F", "G", "H", "I", "J", "K", "L", "M", "N", "O", "P", "Q", "R", "S", "T", "U",
+                "V", "W", "X", "Y", "Z">>
+LowerChars == <<"a", "b", "c", "d", "e", "f", "g", "h", "i", "j", "k", "l", "m", "n", "o", "p", "q", "r", "s", "t", "u",
+                "v", "w", "x", "y", "z">>
+LowerChar(c) == IF \E n \in 1..26 : UpperChars[n] = c THEN LowerChars[CHOOSE n \in 1..26 : UpperChars[n] = c] ELSE c
+RECURSIVE Lower(_)
+Lower(str) == IF Len(str) = 0 THEN "" ELSE LowerChar(SubSeq(str, 1, 1)) \o Lower(SubSeq(str, 2, Len(str)))
 
 (* ---- directives ---- *)
 IsTxn(e) == e.k = "txn"
@@ -486,6 +499,27 @@ MechRows ==
       [] tab = "commodities" -> {TypedRow(L, emitted[n]) : n \in 1..Len(emitted)}
       [] OTHER -> [n \in 1..Len(emitted) |-> TypedRow(L, emitted[n])]
 
+(* ---- the lookups, as the code does them ---- *)
+(* compiler.py rewrites meta(k) -> getitem(meta, k), entry_meta(k) -> getitem(entry.meta, k), any_meta(k) ->
+   getitem(meta, k, getitem(entry.meta, k)); query_env.open_meta / currency_meta (= commodity_meta) fetch the directive
+   from the accounts / commodities directory and call entry.meta.get(key).  Everything ends in dict.get(key): a scan
+   of the dictionary for THE key as it was typed in the query (Mech = "foldcase": the key is lower-cased first --
+   deliberately broken, "keys are lower case anyway").  A dictionary that is None gives None whatever the default;
+   a key that is present with the value None gives None, not the default. *)
+KeyAsUsed(k) == IF Mech = "foldcase" THEN Lower(k) ELSE k
+RECURSIVE ScanGet(_, _, _, _)
+ScanGet(meta, k, n, default) ==        \* the pair written last wins, as in a dict built from the pairs
+    IF n = 0 THEN default ELSE IF meta[n][1] = k THEN Val(meta[n][2]) ELSE ScanGet(meta, k, n - 1, default)
+DictGet(ometa, k, default) == IF IsNull(ometa) THEN NULL ELSE ScanGet(ometa[1], KeyAsUsed(k), Len(ometa[1]), default)
+(* the five lookup functions for posting j of M[i] and key k, evaluated that way *)
+MechLookup(M, i, j, k) ==
+    LET t == M[i] p == t.postings[j]
+        o == OpenIdx(M, p.acct) c == CommodityIdx(M, p.u.c)
+    IN  [m |-> DictGet(p.meta, k, NULL), em |-> DictGet(Some(t.meta), k, NULL),
+         am |-> DictGet(p.meta, k, DictGet(Some(t.meta), k, NULL)),
+         om |-> IF IsNull(o) THEN NULL ELSE DictGet(Some(M[o[1]].meta), k, NULL),
+         cm |-> IF IsNull(c) THEN NULL ELSE DictGet(Some(M[c[1]].meta), k, NULL)]
+
 -----------------------------------------------------------------------------
 (* ---- the property, as invariants over the mechanism and laws over the declarative part ---- *)
 IsPrefix(s, t) == Len(s) <= Len(t) /\ s = SubSeq(t, 1, Len(s))
@@ -500,6 +534,19 @@ MechEqDecl ==
     /\ tab = "entries" => \A n \in 1..Len(emitted) : emitted[n].entry = n
     /\ tab \in TypedTables => IsPrefix(emitted, OfKind(Decl, TableKind[tab]))
     /\ (done /\ tab # "build") => MechRows = TableRows(Decl, Keys, tab)
+
+(* every lookup function, evaluated the way the code does, gives for every yielded posting and EVERY key of Keys
+   (present ones, missing ones, keys that differ from a present one in the case of a letter only) what the declarative
+   lookup gives; any_meta may take either reading of "postings without metadata" *)
+LookupsEqDecl ==
+    (done /\ tab = "postings") =>
+    \A n \in 1..Len(emitted), q \in 1..Len(Keys) :
+        LET i == emitted[n].entry j == emitted[n].posting k == Keys[q]
+            t == L[i] p == t.postings[j]
+            mech == MechLookup(L, i, j, k)
+        IN  /\ mech.m = Meta(p, k) /\ mech.em = EntryMeta(t, k)
+            /\ mech.om = OpenMeta(L, p.acct, k) /\ mech.cm = CommodityMeta(L, p.u.c, k)
+            /\ mech.am \in {AnyMeta(t, p, k), AnyMetaAlt(t, p, k)}
 
 (* THE clause of part 3: a statement without qualifiers sees the ledger's tables, whatever statements (with whatever
    qualifiers) were executed on the connection before it; the registered table never carries qualifiers *)
@@ -563,6 +610,12 @@ NullLaws ==
                  /\ (~inP /\ inT) => x.am = x.em                      \* ... then the transaction
                  /\ IsNull(OpenIdx(M, p.acct)) => IsNull(x.om) /\ IsNull(r.open_date)
                  /\ IsNull(CommodityIdx(M, p.u.c)) => IsNull(x.cm)
+                 \* the account-open and commodity lookups are lookups in THAT directive's dictionary, key for key
+                 /\ \A i \in 1..Len(M) :
+                       /\ (M[i].k = "open" /\ M[i].account = p.acct) =>
+                             (x.om = IF HasKey(M[i].meta, k) THEN Val(RawGet(M[i].meta, k)) ELSE NULL)
+                       /\ (M[i].k = "commodity" /\ M[i].currency = p.u.c) =>
+                             (x.cm = IF HasKey(M[i].meta, k) THEN Val(RawGet(M[i].meta, k)) ELSE NULL)
         /\ \A a \in {t.postings[x].acct : x \in 1..Len(t.postings)} :   \* siblings, not the posting itself
               a \in r.other_accounts <=> \E x \in 1..Len(t.postings) : x # ps[n][2] /\ t.postings[x].acct = a
         /\ r.year * 10000 + r.month * 100 + r.day > 0 /\ r.month \in 1..12 /\ r.day \in 1..31
